@@ -183,6 +183,7 @@ impl BoxedIo {
     #[verifier::external_body]
     pub fn new<T: MaybeTls>(io: T) -> (r: BoxedIo) ensures r.tls@ == io.session() { unimplemented!() }
 }
+pub open spec fn h2() -> Seq<u8> { seq![104u8, 50u8] }
 // PEM parsing (rustls-pki-types): a function of the bytes (A-rustls-05)
 pub uninterp spec fn pem_certs(pem: Seq<u8>) -> Option<Seq<CertificateDer>>;
 pub uninterp spec fn pem_key(pem: Seq<u8>) -> Option<PrivateKeyDer>;
@@ -202,6 +203,20 @@ pub struct HttpsUriWithoutTlsSupport(pub ());
 impl IntoBoxErr for HttpsUriWithoutTlsSupport {}
 use core::future::Future;
 use vstd::future::FutureAdditionalSpecFns;
+// Box::pin only moves the future to the heap (A-core-33); tower Service over a Uri (A-tower-06: the inner connector's future)
+pub mod verif_box { use vstd::prelude::*; pub struct Box { pub x: u8 } impl Box { pub fn pin<F>(f: F) -> (r: F) ensures r == f { f } } }
+pub use verif_box::Box;
+pub trait UriService { type Future: Future<Output = Result<PlainIo, BoxError>>; fn call(&mut self, uri: Uri) -> Self::Future; }
+#[verifier::external_body]
+pub fn verif_opt_str_eq(a: Option<&str>, b: Option<&str>) -> (r: bool) ensures r == (match (a, b) { (Some(x), Some(y)) => x@ == y@, (None, None) => true, _ => false }) { a == b }
+pub open spec fn is_https(uri: Uri) -> bool { uri.scheme matches Some(s) && s@ == "https"@ }
+// the three facts about a connection attempt (what C15 says of the connector)
+pub open spec fn connect_ok(https: bool, tls: Option<TlsConnector>, r: Result<BoxedIo, ConnectError>) -> bool {
+    &&& (https && tls is None) ==> r is Err
+    &&& (https && r is Ok) ==> (tls is Some && r->Ok_0.tls@ is Some && r->Ok_0.tls@->Some_0.config@ == tls->Some_0.config.t && r->Ok_0.tls@->Some_0.domain@.name == tls->Some_0.domain.t.name
+            && (tls->Some_0.assume_http2 || (r->Ok_0.tls@->Some_0.alpn is Some && r->Ok_0.tls@->Some_0.alpn->Some_0@ == h2())))
+    &&& (!https && r is Ok) ==> r->Ok_0.tls@ is None
+}
 // the accepted stream and its session, as conn.rs reads them (A-rustls-06: peer_certificates() is the chain the peer presented
 // and rustls verified; None when the client presented none)
 impl<IO> server::TlsStream<IO> {
@@ -211,6 +226,17 @@ impl ServerConnection {
     pub fn peer_certificates(&self) -> (r: Option<&[CertificateDer]>) ensures r is Some <==> self.peer is Some, r matches Some(s) ==> s@ == self.peer->Some_0@
     { match &self.peer { Some(v) => Some(v.as_slice()), None => None } }
 }
+// A-core-34: Option::is_some_and: true exactly when there is a value the predicate accepts
+pub assume_specification<T, F: FnOnce(T) -> bool>[ Option::<T>::is_some_and ](o: Option<T>, f: F) -> (r: bool)
+    requires o matches Some(x) ==> f.requires((x,)),
+    ensures o is None ==> !r, o matches Some(x) ==> f.ensures((x,), r);
+pub assume_specification<T: Clone>[ <[T] as ToOwned>::to_owned ](s: &[T]) -> (r: Vec<T>) ensures r@.len() == s@.len(), forall|i: int| 0 <= i < s@.len() ==> call_ensures(T::clone, (&s@[i],), #[trigger] r@[i]);
+// Arc<Vec<T>>: From<Vec<T>> (A-core-32)
+impl vstd::std_specs::convert::FromSpecImpl<Vec<CertificateDer>> for Arc<Vec<CertificateDer>> {
+    open spec fn obeys_from_spec() -> bool { true }
+    open spec fn from_spec(v: Vec<CertificateDer>) -> Self { Arc { t: v } }
+}
+impl From<Vec<CertificateDer>> for Arc<Vec<CertificateDer>> { fn from(v: Vec<CertificateDer>) -> (r: Self) { Arc { t: v } } }
 // A-core-32: <[T]>::to_owned().into(): the slice as a shared vector
 #[verifier::external_body]
 pub fn verif_arc_vec(s: &[CertificateDer]) -> (r: Arc<Vec<CertificateDer>>) ensures r.t@ == s@ { unimplemented!() }
@@ -221,8 +247,10 @@ pub assume_specification<T>[<T as From<T>>::from](t: T) -> (r: T) ensures r == t
 #[verifier::external_body]
 pub fn verif_vec_extend<T>(v: &mut Vec<T>, more: Vec<T>) ensures final(v)@ == old(v)@ + more@ { v.extend(more) }
 // A-http-40: http::Uri::host is the authority's host, if any
-pub struct Uri { pub host: Option<String> }
-impl Uri { pub fn host(&self) -> (r: Option<&str>) ensures r is Some <==> self.host is Some, r matches Some(h) ==> h@ == self.host->Some_0@ { match &self.host { Some(h) => Some(h.as_str()), None => None } } }
+pub struct Uri { pub host: Option<String>, pub scheme: Option<String> }
+impl Uri {
+    pub fn scheme_str(&self) -> (r: Option<&str>) ensures r is Some <==> self.scheme is Some, r matches Some(h) ==> h@ == self.scheme->Some_0@ { match &self.scheme { Some(h) => Some(h.as_str()), None => None } }
+    pub fn host(&self) -> (r: Option<&str>) ensures r is Some <==> self.host is Some, r matches Some(h) ==> h@ == self.host->Some_0@ { match &self.host { Some(h) => Some(h.as_str()), None => None } } }
 pub struct Error { pub x: u8 }
 impl Error { pub fn new_invalid_uri() -> Error { Error { x: 0 } } }
 impl IntoBoxErr for Error {}
@@ -269,7 +297,6 @@ pub open spec fn ca_roots(cs: Seq<Certificate>) -> Option<Seq<Root>> decreases c
         match (ca_roots(cs.drop_last()), pem_certs(cs.last().pem@)) { (Some(a), Some(b)) => Some(a + certs_of(b)), _ => None }
     }
 }
-pub open spec fn h2() -> Seq<u8> { seq![104u8, 50u8] }
 ''')
     u.fn(ST, 'convert_identity_to_pki_types',
          body_edits=[lambda t: t.sub_code('R17', r'PrivateKeyDer::from_pem_reader\(&mut Cursor::new\(&identity\.key\)\)\s*\.map_err\(\|_e?\| TlsError::PrivateKeyParseError\)', 'verif_key_from_pem(&identity.key)')],
@@ -435,7 +462,14 @@ pub open spec fn h2() -> Seq<u8> { seq![104u8, 50u8] }
     if not mt:
         raise Infra('connector.rs: the inner block is not followed by `.await.map_err(ConnectError) })`')
     inner = ksrc[ibo:ibe]
-    virt = ('async fn verif_connect_inner<F: Future<Output = Result<PlainIo, BoxError>>>(connect: F, tls: Option<TlsConnector>, is_https: bool) -> Result<BoxedIo, crate::BoxError> ' + inner + '\n'
+    mc = re.search(r'fn call\(&mut self, uri: Uri\) -> Self::Future \{', ksrc)
+    if not mc:
+        raise Infra('connector.rs: Connector::call not found')
+    cbe = vxlib.match_brace(ksrc, kcode, mc.end() - 1)
+    blk_end = ibe + mt.end()
+    call_txt = ksrc[mc.start():m.start()] + 'Box::pin(verif_connect(connect, tls, is_https))' + ksrc[blk_end:cbe]
+    virt = ('impl<C> Connector<C> {\n    ' + call_txt + '\n}\n'
+            'async fn verif_connect_inner<F: Future<Output = Result<PlainIo, BoxError>>>(connect: F, tls: Option<TlsConnector>, is_https: bool) -> Result<BoxedIo, crate::BoxError> ' + inner + '\n'
             'async fn verif_connect<F: Future<Output = Result<PlainIo, BoxError>>>(connect: F, tls: Option<TlsConnector>, is_https: bool) -> Result<BoxedIo, ConnectError> {\n'
             '    verif_connect_inner(connect, tls, is_https)' + mt.group(0).rstrip()[:-2].rstrip() + '\n}\n')
     VK = KN + '#R28'
@@ -455,7 +489,14 @@ pub open spec fn h2() -> Seq<u8> { seq![104u8, 50u8] }
              ])
         u.fn(VK, 'verif_connect', display='Connector::call::outer',
              body_edits=[lambda t: t.sub_code('R3', r'\.map_err\(ConnectError\)', '.map_err(|e| ConnectError(e))')],
-             ensures=[Clause('X4_the_outer_block_only_wraps_the_error', '(is_https && tls is None) ==> r is Err')])
+             ensures=[Clause('X4_the_outer_block_only_wraps_the_error', 'connect_ok(is_https, tls, r)')])
+        u.item(KN, 'struct', 'Connector')
+        u.raw('// A-derive-04: #[derive(Clone)] on TlsConnector (dropped with the attributes): the same connector\nimpl Clone for TlsConnector { #[verifier::external_body] fn clone(&self) -> (r: Self) ensures r == *self { unimplemented!() } }')
+        u.fn(VK, 'call', within='impl<C> Connector<C>', header='impl<C: UriService> Connector<C> {', close=True, display='Connector::call',
+             sig_edits=[lambda t: t.sub_code('R9', r'Self::Future', 'impl Future<Output = Result<BoxedIo, ConnectError>>')],
+             body_edits=[lambda t: t.sub_code('R17', r'uri\.scheme_str\(\) == Some\("https"\)', 'verif_opt_str_eq(uri.scheme_str(), Some("https"))')],
+             ensures=[Clause('Y1_whether_tls_is_used_is_decided_by_the_uri_scheme_alone_with_the_configured_connector',
+                             'r.awaited() ==> connect_ok(is_https(uri), old(self).tls, r@)')])
     finally:
         vxlib.TLS.override = saved_ov
     u.raw('''
